@@ -1,0 +1,37 @@
+//go:build verif
+
+package http2
+
+import (
+	"net/http"
+
+	"golang.org/x/net/http2/hpack"
+)
+
+// Verification hooks for property C05 (codec agreement with upstream). Add-only, build tag verif.
+
+// VerifEncodeHeaders runs ClientConn.encodeHeaders on a fresh connection-less ClientConn and
+// returns the HPACK block the transport would put on the wire for req.
+func VerifEncodeHeaders(req *http.Request, addGzipHeader bool, trailers string, contentLength int64, peerMaxHeaderListSize uint64) ([]byte, error) {
+	cc := &ClientConn{peerMaxHeaderListSize: peerMaxHeaderListSize}
+	cc.henc = hpack.NewEncoder(&cc.hbuf)
+	b, err := cc.encodeHeaders(req, addGzipHeader, trailers, contentLength, nil)
+	return append([]byte(nil), b...), err
+}
+
+// VerifEncodeTrailers runs ClientConn.encodeTrailers the same way.
+func VerifEncodeTrailers(trailer http.Header, peerMaxHeaderListSize uint64) ([]byte, error) {
+	cc := &ClientConn{peerMaxHeaderListSize: peerMaxHeaderListSize}
+	cc.henc = hpack.NewEncoder(&cc.hbuf)
+	b, err := cc.encodeTrailers(trailer, nil)
+	return append([]byte(nil), b...), err
+}
+
+// VerifLowerHeader exposes lowerHeader (headermap.go).
+func VerifLowerHeader(v string) (string, bool) { return lowerHeader(v) }
+
+// VerifCanonicalHeader exposes canonicalHeader (headermap.go).
+func VerifCanonicalHeader(v string) string { return canonicalHeader(v) }
+
+// VerifValidWireHeaderFieldName exposes validWireHeaderFieldName (http2.go).
+func VerifValidWireHeaderFieldName(v string) bool { return validWireHeaderFieldName(v) }
